@@ -173,11 +173,36 @@ pub fn run_dir(tag: &str) -> PathBuf {
     d
 }
 
+/// `cwd-removed`: a command that starts `bin` in a working directory that no longer exists (a
+/// sub-directory of `parent` that the shell enters, removes and then replaces itself from).
+/// Only for invocations whose path arguments are all absolute.
+pub fn command_in_removed_cwd(bin: &std::path::Path, args: &[String], parent: &std::path::Path) -> Command {
+    let gone = parent.join("removed-cwd");
+    let _ = std::fs::create_dir_all(&gone);
+    let mut cmd = Command::new("/bin/sh");
+    cmd.arg("-c")
+        .arg("cd \"$1\" && rmdir \"$1\" && shift && exec \"$@\"")
+        .arg("sh")
+        .arg(&gone)
+        .arg(bin)
+        .args(args);
+    cmd
+}
+
 pub fn spawn(bin: &str, args: &[String], cwd: &PathBuf, stdin: Option<&[u8]>, envs: &[(&str, String)]) -> Spawned {
+    spawn_env(bin, args, cwd, stdin, envs, false)
+}
+
+pub fn spawn_env(bin: &str, args: &[String], cwd: &PathBuf, stdin: Option<&[u8]>, envs: &[(&str, String)], cwd_removed: bool) -> Spawned {
     use std::io::Write;
-    let mut cmd = Command::new(bin_dir().join(bin));
-    cmd.args(args)
-        .current_dir(cwd)
+    let mut cmd = if cwd_removed {
+        command_in_removed_cwd(&bin_dir().join(bin), args, cwd)
+    } else {
+        let mut c = Command::new(bin_dir().join(bin));
+        c.args(args);
+        c
+    };
+    cmd.current_dir(cwd)
         .env_clear()
         .env("PATH", "/usr/bin:/bin")
         .stdout(Stdio::piped())
@@ -342,14 +367,36 @@ struct Outcome {
     file_created: bool,
 }
 
+/// Process-environment variant of a plan for its second execution (a pure function of the plan):
+/// 0 = `cwd-removed`, 1 = `input-pipe` (--convert reads /dev/stdin, a pipe), anything else = none.
+fn env_variant(plan: &RgPlan) -> u8 {
+    let d = digest_bytes(&serde_json::to_vec(plan).expect("plan serialises")) % 6;
+    match (d, plan) {
+        (0, _) => 0,
+        (1, RgPlan::Convert { in_place: false, .. }) => 1,
+        _ => 255,
+    }
+}
+
 fn run_once(plan: &RgPlan, force_dot: Option<bool>) -> Outcome {
+    run_once_env(plan, force_dot, 255)
+}
+
+fn run_once_env(plan: &RgPlan, force_dot: Option<bool>, env: u8) -> Outcome {
     let dir = run_dir("rg");
-    let (args, outfile) = args_of(plan, &dir, force_dot);
+    let (mut args, outfile) = args_of(plan, &dir, force_dot);
     let seed = match plan {
         RgPlan::Gen { rng_seed, .. } => *rng_seed,
         RgPlan::Convert { .. } => 0,
     };
-    let sp = spawn("random_graph_gen", &args, &dir, None, &[("RSBDD_VERIF_RNG_SEED", seed.to_string())]);
+    let mut piped: Option<Vec<u8>> = None;
+    if env == 1 {
+        if let Some(i) = args.iter().position(|a| a == "--convert") {
+            piped = std::fs::read(&args[i + 1]).ok();
+            args[i + 1] = "/dev/stdin".into();
+        }
+    }
+    let sp = spawn_env("random_graph_gen", &args, &dir, piped.as_deref(), &[("RSBDD_VERIF_RNG_SEED", seed.to_string())], env == 0);
     let (output, file_created) = match &outfile {
         Some(p) => match std::fs::read(p) {
             Ok(b) => (b, true),
@@ -665,11 +712,23 @@ pub fn execute(plan: &RgPlan) -> RunOutcome {
     }
 
     // G3: replay — the same plan again gives byte-identical output
+    // G8: .. also when the process starts in a removed working directory (all paths are absolute)
+    // or when --convert reads its input through a pipe
     if vs.is_empty() {
-        let again = run_once(plan, None);
+        let env = env_variant(plan);
+        let again = run_once_env(plan, None, env);
         out.steps += 1;
         if again.sp.status != first.sp.status || again.output != first.output {
-            vs.push(viol("G3", "replay", "the same request with the same RNG seed produced a different output".into()));
+            match env {
+                0 => vs.push(viol("G8", "cwd-removed", format!("the same request started in a removed working directory (absolute paths only) ends with {:?} instead of {:?} / prints something else: {}", again.sp.status, first.sp.status, String::from_utf8_lossy(&again.sp.stderr).lines().take(2).collect::<Vec<_>>().join(" | ")))),
+                1 => vs.push(viol("G8", "input-pipe", format!("the same --convert request reading its input through a pipe (/dev/stdin) ends with {:?} instead of {:?} / prints something else", again.sp.status, first.sp.status))),
+                _ => vs.push(viol("G3", "replay", "the same request with the same RNG seed produced a different output".into())),
+            }
+        }
+        match env {
+            0 => bump(&mut stats, "fault.cwd-removed"),
+            1 => bump(&mut stats, "fault.input-pipe"),
+            _ => {}
         }
         bump(&mut stats, "fault.rng-seeded");
     }
